@@ -326,3 +326,18 @@ package ext
 //@   ghostset-at-entry wtN = 0
 //@   ghostset after WriteBinary: wtN = wtN + 1
 //@   top-ensures wtN == 1
+
+// ReleaseBodyStream: the unread rest is drained first, then the object is cleared, then pooled (typestate).
+//@ ghost var rbsStep int
+//@ func ReleaseBodyStream(requestReader) err
+//@   props C14, C09
+//@   abstract
+//@   noinline
+//@   modifies rbsStep
+//@   ghostset-at-entry rbsStep = 0
+//@   assert before skipRest: rbsStep == 0
+//@   ghostset after skipRest: rbsStep = 1
+//@   assert before reset: rbsStep == 1
+//@   ghostset after reset: rbsStep = 2
+//@   assert before Put: rbsStep == 2
+
